@@ -54,6 +54,7 @@ type Options struct {
 	OnlyHarness       string
 	known             []KnownFinding
 	WitnessPerHarness int
+	HarnessWall       time.Duration // exploration budget per harness; exceeding it is reported as "path budget exhausted" (inconclusive)
 }
 
 type Sample struct {
@@ -225,6 +226,8 @@ func (in *Interp) reset(prefix []int) {
 	in.pureDeclared = nil
 	in.bufs = nil
 	in.pendingConc = nil
+	in.strVecs = nil
+	in.pools = nil
 	in.blobStrs = nil
 	in.blobByID = nil
 	in.hints = nil
@@ -275,7 +278,7 @@ func runHarness(L *Loaded, spec *HarnessSpec, opts *Options, nworkers int) *Harn
 					return
 				}
 				R.mu.Lock()
-				over := R.Paths >= maxPaths || R.Outcomes["unwind"]+R.Outcomes["abort"] > 200
+				over := R.Paths >= maxPaths || R.Outcomes["unwind"]+R.Outcomes["abort"] > 200 || (opts.HarnessWall > 0 && time.Since(t0) > opts.HarnessWall)
 				if over {
 					R.Truncated = true
 				}
